@@ -40,6 +40,8 @@ def run(ctx):
     r5_grid(ctx)
     shared.whole_cell_consumption(ctx, 'R6')
     c01.r3_export_order(ctx, g, None, 'R7')
+    from .. import regen
+    regen.check(ctx, 'R8')
 
 
 def listener_handlers(ctx):
